@@ -2,6 +2,7 @@ package main
 
 import (
 	"fmt"
+	"strings"
 
 	"golang.org/x/tools/go/ssa"
 )
@@ -232,4 +233,84 @@ func ruleC05RunTask(cx *Ctx) {
 		ok, w := MustFollowPt(Pt{fn.Blocks[0], 0}, func(in ssa.Instruction) bool { return isCallTo(in, put) }, exitReturn, cut)
 		cx.R.Check(ok, rule, name, "task recycled", cx.P.Pos(fn.Pos()), "every handled task is cleared and returned to the pool", w...)
 	}
+}
+
+// ruleC05LockCtx: policy / deque / wheel / node link state is written only with the eviction lock held.
+func ruleC05LockCtx(cx *Ctx) {
+	const rule = "C05.lockctx"
+	cx.R.Rule(rule, 40, "every write of policy fields, deque fields, timer-wheel fields and node link/queue fields, and every consumption of the read and write buffers, executes with the eviction lock held (constructors of still unpublished objects exempt; the drainBuffers token hand-off is modelled)")
+	lc := lockContext(cx)
+	if lc == nil {
+		cx.R.Undecided(rule, "*", "lock context", "-", "eviction-lock context analysis unavailable")
+		return
+	}
+	exempt := map[string]string{
+		"newPolicy":             "object not yet published",
+		"deque.NewLinked":       "object not yet published",
+		"expiration.NewVariable": "object not yet published (sentinel links)",
+		"newSketch":             "object not yet published",
+	}
+	protected := map[string]bool{}
+	for _, tf := range [][2]string{{"", "policy"}, {"internal/deque", "Linked"}, {"internal/expiration", "Variable"}, {"", "sketch"}} {
+		_, st := cx.P.Struct(tf[0], tf[1])
+		if st == nil {
+			cx.R.Undecided(rule, tf[1], "anchor", "-", "protected struct does not resolve")
+			continue
+		}
+		for i := 0; i < st.NumFields(); i++ {
+			if tf[1] == "sketch" && st.Field(i).Name() == "isInitialized" {
+				continue // atomic flag read lock-free by readers
+			}
+			protected[tf[1]+"."+st.Field(i).Name()] = true
+		}
+	}
+	linkMethods := map[string]bool{"SetPrev": true, "SetNext": true, "SetPrevExp": true, "SetNextExp": true, "SetQueueType": true, "MakeWindow": true, "MakeMainProbation": true, "MakeMainProtected": true}
+	for _, fn := range cx.P.ModuleFuncs() {
+		name := funcName(fn)
+		if fn.Pkg != nil && strings.HasSuffix(fn.Pkg.Pkg.Path(), nodePkg) {
+			continue // the node methods themselves; their callers are checked
+		}
+		n := 0
+		allInstrs(fn, func(in ssa.Instruction) {
+			what := ""
+			switch x := in.(type) {
+			case *ssa.Store:
+				if f := fieldOf(x.Addr); f != nil {
+					if tn := structNameOfAddr(x.Addr); protected[tn+"."+f.Name()] {
+						what = "store to " + tn + "." + f.Name()
+					}
+				}
+				// stores into the sketch table / wheel slices
+				if ia, ok := x.Addr.(*ssa.IndexAddr); ok {
+					if f := fieldOf(ia.X); f != nil {
+						if tn := structNameOfAddr(stripLoad(ia.X)); protected[tn+"."+f.Name()] {
+							what = "store into " + tn + "." + f.Name() + "[...]"
+						}
+					}
+				}
+			case ssa.CallInstruction:
+				if m := invokeName(in); linkMethods[m] && isNodeIface(namedTypeName(callCommon(in).Value.Type())) {
+					what = "node." + m
+				}
+			}
+			if what == "" {
+				return
+			}
+			n++
+			if why, ok := exempt[funcName(outermost(fn))]; ok {
+				cx.R.OK(rule, name, fmt.Sprintf("%s #%d", what, n), cx.P.where(in), "exempt: "+why)
+				return
+			}
+			cx.R.Check(lc.heldAtCtx(in), rule, name, fmt.Sprintf("%s #%d", what, n), cx.P.where(in), what+" under the eviction lock: "+lc.explain(in))
+		})
+	}
+}
+
+func structNameOfAddr(v ssa.Value) string {
+	fa, ok := v.(*ssa.FieldAddr)
+	if !ok {
+		return ""
+	}
+	t := fa.X.Type()
+	return namedTypeName(t)
 }
